@@ -1,5 +1,6 @@
 import EpgVerif.Props.C04
 import EpgVerif.Tie.ShiftSites
+import EpgVerif.Props.C04Multi
 open EpgVerif.Props.C04
 #print axioms get_point
 #print axioms get_shift
@@ -14,3 +15,7 @@ open EpgVerif.Props.C04
 #print axioms backend_shift_agree
 #print axioms backend_matrix_agree
 #print axioms EpgVerif.Tie.ShiftSites.sites_as_modelled
+#print axioms EpgVerif.Props.C04.rep_shiftMT
+#print axioms EpgVerif.Props.C04.rep_ptMT
+#print axioms EpgVerif.Props.C04.signal_is_sum_of_zero_slots
+#print axioms EpgVerif.Props.C04.rep_runMT
